@@ -5,6 +5,7 @@ insert decision table (present x room), renewal = remove-then-append, the expiry
 mutated by push / retain / drain-of-a-prefix, expiry runs before every read and write, pair identity
 is (address, info-hash), the contact-address table (explicit port / implied port), the keys used by
 the handler, and who may write the store."""
+import re
 from . import lib, common, c05
 from .lib import (Sym, Table, BOOL, Lost, literal, term_int, strip_transparent, is_field_of_param, option_is_some,
                   agg_variant, field_chain, root_of, is_param, find_calls, fmt)
@@ -138,18 +139,40 @@ def rule_insert_table(ctx, res):
         return (kind, val, appended, tuple(other))
 
     tab = Table.build(s.complete_paths(), classify, outcome)
-
-    def expected(v):
-        present = v['has_list'] and v['in_list']
-        if present:
-            return ('Some', 1, False, ())
-        if v['room']:
-            return ('Some', 0, True, ())
-        return ('None', None, False, ())
-
-    bad, n = tab.compare({'has_list': BOOL, 'in_list': BOOL, 'room': BOOL}, expected, consistent=lambda v: v['has_list'] or not v['in_list'])
-    res.check(not bad, 'TABLE', b.path, 'insert table: present -> Some(true), nothing written; new & room (< 500 live pairs) -> appended, Some(false); new & full -> None, nothing written',
-              site=b.span, detail='; '.join('%s -> got %s want %s' % x for x in bad[:3]))
+    # the three outcomes are told apart by the value returned (Option<bool> on the reviewed tree; any type with three
+    # distinguishable values will do): present -> R1, nothing written; new & room -> R2, appended; new & full -> R3, nothing written
+    roles = {}
+    okr = True
+    for hl in (False, True):
+        for il in (False, True):
+            for rm in (False, True):
+                if il and not hl:
+                    continue
+                role = 'present' if (hl and il) else 'added' if rm else 'full'
+                outs = set(tab.lookup({'has_list': hl, 'in_list': il, 'room': rm}))
+                if not outs:
+                    okr = False
+                roles.setdefault(role, set()).update(outs)
+    why = []
+    keys = {}
+    for role, outs in roles.items():
+        if len({(k, v) for k, v, _a, _o in outs}) != 1:
+            okr = False
+            why.append('%s -> %s' % (role, sorted(map(str, outs))[:3]))
+            continue
+        k, v, _a, _o = next(iter(outs))
+        keys[role] = (k, v)
+        want_append = role == 'added'
+        if any(a is not want_append or o for _k, _v, a, o in outs):
+            okr = False
+            why.append('%s writes %s' % (role, sorted(map(str, outs))[:3]))
+    if len(set(keys.values())) != 3 or any(k is None for k, _v in keys.values()):
+        okr = False
+        why.append('the three outcomes are not told apart by the returned value: %s' % keys)
+    extra = [a for val, out, p_ in tab.rows for a in val if a not in ('has_list', 'in_list', 'room')]
+    res.check(okr and not extra, 'TABLE', b.path, 'insert table: present -> Some(true), nothing written; new & room (< 500 live pairs) -> appended, Some(false); new & full -> None, nothing written',
+              site=b.span, detail='; '.join(why[:3]))
+    ctx.__dict__['_c07_result_roles'] = {v: k for k, v in keys.items()} if okr else None
 
 
 def rule_add_table(ctx, res):
@@ -159,12 +182,30 @@ def rule_add_table(ctx, res):
     s.run()
     res.paths += len(s.paths)
 
+    role_of = ctx.__dict__.get('_c07_result_roles') or {('Some', 1): 'present', ('Some', 0): 'added', ('None', None): 'full'}
+    ROLES = ['present', 'added', 'full']
+    ret_adt = None
+    for k_, _v in role_of:
+        pass
+    variants = {}
+    fnrec = ctx.f.fns.get(S + 'insert_contact') or {}
+    m_ = re.search(r'->\s*([A-Za-z_0-9:]+)\s*$', (fnrec.get('sig') or ''))
+    if m_ and ctx.f.adts.get(m_.group(1)):
+        variants = {v: k for k, v in common.enum_variants(ctx, m_.group(1)).items()}      # discriminant -> name
+
     def classify(lit, c):
         rel, a, b2, truth = lit
         if rel == 'variant' and a[0] == 'call' and a[1] == S + 'insert_contact':
-            return ('res', {'Some'} if option_is_some(b2) else {'None'})
+            if all(k in ('Some', 'None') for k, _v in role_of):
+                return ('role', {r for (k, _v), r in role_of.items() if (k == 'Some') == bool(option_is_some(b2))})
+            # a private result enum: the discriminant names the outcome
+            if isinstance(b2, tuple) and b2[0] == 'not':
+                names = {variants.get(d) for d in variants if d not in b2[1]}
+            else:
+                names = {variants.get(b2)}
+            return ('role', {r for (k, _v), r in role_of.items() if k in names})
         if rel == 'bool' and field_chain(a) == ['0'] and find_calls(a, 'insert_contact'):
-            return ('was_present', truth)
+            return ('role', {r for (k, v), r in role_of.items() if k == 'Some' and bool(v) == bool(truth)})
         raise Lost('add: unrecognised condition %s' % fmt(a))
 
     def outcome(p):
@@ -179,7 +220,7 @@ def rule_add_table(ctx, res):
                 it = strip_transparent(e[2][1])
                 good = it[0] == 'call' and it[1] == 'storage::AnnounceItem::new' and is_param(strip_transparent(it[2][0]), 'info_hash') and is_param(strip_transparent(it[2][1]), 'address')
                 seq.append('insert' if good else 'insert?')
-            elif n in ('push', 'retain', 'remove', 'clear', 'drain', 'truncate', 'pop', 'insert') and is_field_of_param(e[2][0], 'self', 'expires'):
+            elif n in ('push', 'push_back', 'push_front', 'retain', 'remove', 'clear', 'drain', 'truncate', 'pop', 'pop_front', 'pop_back', 'insert', 'swap_remove') and is_field_of_param(e[2][0], 'self', 'expires'):
                 if n == 'retain':
                     r = closure_ret(ctx, res, e[2][1])
                     good = r is not None and r[0] == 'call' and lib.cmp_kind_of_call(r[1]) == 'ne' and 'item_expiration' in fmt(r)
@@ -198,7 +239,7 @@ def rule_add_table(ctx, res):
                         except (Lost, IndexError, TypeError):
                             pass
                     seq.append('retain(!= this pair)' if good else 'retain(?)')
-                elif n == 'push':
+                elif n in ('push', 'push_back'):          # appended at the end of the queue (Vec::push / VecDeque::push_back)
                     v = strip_transparent(e[2][1])
                     good = v[0] == 'call' and v[1] == 'storage::AnnounceItem::expiration' and find_calls(v, 'AnnounceItem::new')
                     seq.append('push(this pair)' if good else 'push(?)')
@@ -209,13 +250,13 @@ def rule_add_table(ctx, res):
     tab = Table.build(s.complete_paths(), classify, outcome)
 
     def expected(v):
-        if v['res'] == 'None':
+        if v['role'] == 'full':
             return (0, ('expire(curr_time)', 'insert'))
-        if v['was_present']:
+        if v['role'] == 'present':
             return (1, ('expire(curr_time)', 'insert', 'retain(!= this pair)', 'push(this pair)'))
         return (1, ('expire(curr_time)', 'insert', 'push(this pair)'))
 
-    bad, n = tab.compare({'res': ['Some', 'None'], 'was_present': BOOL}, expected, consistent=lambda v: v['res'] == 'Some' or not v['was_present'])
+    bad, n = tab.compare({'role': ROLES}, expected)
     res.check(not bad, 'TABLE', b.path, 'add: expire first; renewal = remove the pair from the queue then append it; new = append; refused = false and the queue untouched',
               site=b.span, detail='; '.join('%s -> got %s want %s' % x for x in bad[:3]))
     ab = ctx.body(S + 'add_item')
@@ -240,12 +281,33 @@ def rule_find(ctx, res):
             ok = False
         pl = c05.pipeline(p.ret)
         src = pl[0][1]
-        if [x[0] for x in pl] != ['src', 'into_iter', 'flatten', 'map']:
+        names_ = [x[0] for x in pl]
+        mapper = pl[-1][1] if len(pl[-1]) > 1 else None
+        if isinstance(mapper, tuple) and mapper and mapper[0] == 'fn':
+            maps_addr = mapper[1] == 'storage::AnnounceItem::address'
+        else:
+            r = closure_ret(ctx, res, mapper) if mapper is not None else None
+            maps_addr = r is not None and r[0] == 'call' and r[1] == 'storage::AnnounceItem::address'
+        if not maps_addr:
             ok = False
-        if not (src[0] == 'call' and src[1].endswith('::get') and is_field_of_param(src[2][0], 'self', 'storage') and is_param(strip_transparent(src[2][1]), 'info_hash')):
-            ok = False
-        r = closure_ret(ctx, res, pl[-1][1]) if len(pl[-1]) > 1 else None
-        if not (r is not None and r[0] == 'call' and r[1] == 'storage::AnnounceItem::address'):
+        is_get = lambda t: isinstance(t, tuple) and t[0] == 'call' and t[1].endswith('::get') and is_field_of_param(t[2][0], 'self', 'storage') and is_param(strip_transparent(t[2][1]), 'info_hash')
+        if names_ == ['src', 'into_iter', 'flatten', 'map']:
+            if not is_get(src):
+                ok = False
+        elif names_ == ['src', 'iter', 'map']:
+            # form B: `match storage.get(h) { Some(list) => list, None => &[] }.iter().map(address)`
+            found = [literal(c) for c in p.conds if literal(c)[0] == 'variant' and is_get(literal(c)[1])]
+            s0 = src
+            while isinstance(s0, tuple) and s0 and (s0[0] in ('ref', 'deref', 'cast') or (s0[0] == 'call' and len(s0[2]) == 1 and s0[1].split('::')[-1] in ('deref', 'as_slice', 'as_ref'))):
+                s0 = s0[1] if s0[0] != 'call' else s0[2][0]
+            if len(found) != 1:
+                ok = False
+            elif option_is_some(found[0][2]):
+                if s0 != ('field', ('downcast', found[0][1], 'Some'), '0'):
+                    ok = False
+            elif not (isinstance(s0, tuple) and len(s0) == 2 and s0[0] == 'array' and s0[1] == ()):
+                ok = False
+        else:
             ok = False
     res.check(ok, 'FLOW', b.path, 'find: expire first, then every stored address of exactly the list under the queried info-hash', site=b.span)
     fb = ctx.body(S + 'find_items')
@@ -254,6 +316,86 @@ def rule_find(ctx, res):
     cps = fs.complete_paths()
     ok = len(cps) == 1 and cps[0].ret[0] == 'call' and cps[0].ret[1] == S + 'find' and is_param(strip_transparent(cps[0].ret[2][1]), 'info_hash') and strip_transparent(cps[0].ret[2][2])[1] == 'time::Instant::now'
     res.check(ok, 'FLOW', fb.path, 'find_items(h) = find(h, now)')
+
+
+def _expiry_head_loop(ctx, res, rs):
+    """expiry written as `while queue.front() is expired { let e = queue.pop_front(); remove e's pair from its list }`"""
+    def on_queue(t):
+        return is_field_of_param(t, 'self', 'expires')
+    MUT = ('push', 'push_back', 'push_front', 'pop_back', 'retain', 'remove', 'clear', 'drain', 'truncate', 'insert', 'swap_remove', 'append', 'extend')
+    n_iter = 0
+    for p in rs.paths:
+        calls = [e for e in p.effects if e[0] == 'call' and e[1]]
+        qops = [e for e in calls if e[2] and on_queue(e[2][0])]
+        names = [e[1].split('::')[-1] for e in qops]
+        if any(n in MUT for n in names):
+            return False, 'the queue is changed other than by pop_front'
+        head = [literal(c) for c in p.conds[:2]]
+        front_some = head and head[0][0] == 'variant' and isinstance(head[0][1], tuple) and head[0][1][0] == 'call' and head[0][1][1].endswith('::front') and on_queue(head[0][1][2][0])
+        if not front_some:
+            return False, 'the loop does not start by looking at the head of the queue'
+        has_head = option_is_some(head[0][2])
+        expired = None
+        if has_head and len(head) > 1 and head[1][0] == 'bool' and isinstance(head[1][1], tuple) and head[1][1][0] == 'call' and head[1][1][1] == 'storage::ItemExpiration::is_expired':
+            elem = strip_transparent(head[1][1][2][0])
+            if elem == ('field', ('downcast', head[0][1], 'Some'), '0') and is_param(strip_transparent(head[1][1][2][1]), 'curr_time'):
+                expired = head[1][3]
+        pops = [e for e in qops if e[1].endswith('::pop_front')]
+        if p.end == 'return':
+            if pops or not (has_head is False or expired is False):
+                return False, 'the loop is left (or pops) on another condition than "queue empty / head not expired"'
+            continue
+        if p.end != 'loop':
+            return False, 'unexpected exit'
+        if not (has_head and expired is True and len(pops) == 1):
+            return False, 'an iteration does not pop exactly the expired head'
+        n_iter += 1
+        popped = [literal(c) for c in p.conds if literal(c)[0] == 'variant' and literal(c)[1] == ('call',) + tuple(pops[0][1:4])]
+        got = popped and option_is_some(popped[0][2])
+        rt = [x for x in calls if x[1].endswith('::retain')]
+        if not got:
+            if rt or any(x[1].endswith('::remove') for x in calls):
+                return False, 'lists are touched without a popped entry'
+            continue
+        pay = ('field', ('downcast', ('call',) + tuple(pops[0][1:4]), 'Some'), '0')
+        # the list of the popped pair: storage.entry(popped.info_hash()) / storage.get_mut(&popped.info_hash())
+        lk = [literal(c) for c in p.conds if literal(c)[0] == 'variant' and isinstance(literal(c)[1], tuple) and literal(c)[1][0] == 'call'
+              and literal(c)[1][1].split('::')[-1] in ('entry', 'get_mut') and is_field_of_param(literal(c)[1][2][0], 'self', 'storage')]
+        if len(lk) != 1:
+            return False, 'the list of the popped pair is not looked up exactly once'
+        key = strip_transparent(lk[0][1][2][1])
+        key_ok = (isinstance(key, tuple) and key[0] == 'call' and key[1] == 'storage::ItemExpiration::info_hash' and strip_transparent(key[2][0]) == pay) or \
+                 (field_chain(key)[-1:] == ['info_hash'] and any(x == pay for x in lib.term_walk(key)))
+        if not key_ok:
+            return False, 'the list looked up is not the one under the popped pair\'s info-hash'
+        present = (lk[0][2] == 0) if lk[0][1][1].endswith('::entry') else option_is_some(lk[0][2])      # Entry::Occupied = 0
+        if not present:
+            if rt:
+                return False, 'retain without a list'
+            continue
+        if len(rt) != 1 or not (isinstance(rt[0][2][1], tuple) and rt[0][2][1] and rt[0][2][1][0] == 'closure'):
+            return False, 'the popped pair is not removed from its list by one retain'
+        good_r = False
+        try:
+            _cb, cs2 = lib.closure_sym(ctx, rt[0][2][1], res)
+            c2 = cs2.complete_paths()
+            r2 = c2[0].ret if len(c2) == 1 and not c2[0].conds else None
+            if r2 is not None and r2[0] == 'call' and lib.cmp_kind_of_call(r2[1]) == 'ne':
+                x_, y_ = strip_transparent(r2[2][0]), strip_transparent(r2[2][1])
+                for el, cap in ((x_, y_), (y_, x_)):
+                    ec = find_calls(el, 'AnnounceItem::expiration')
+                    base = strip_transparent(ec[0][2][0]) if ec else el
+                    if (bool(ec) or field_chain(el)[-1:] == ['expiration']) and is_param(root_of(base)) and root_of(base)[1] == 2 and cap == pay:
+                        good_r = True
+        except (Lost, IndexError, TypeError):
+            pass
+        if not good_r:
+            return False, 'the retain does not keep exactly the entries that differ from the popped pair'
+        emp = [literal(c)[3] for c in p.conds if literal(c)[0] == 'bool' and literal(c)[1][0] == 'call' and literal(c)[1][1].endswith('::is_empty')]
+        rem = [x for x in calls if x[1].split('::')[-1] in ('remove', 'remove_entry') and ('OccupiedEntry' in x[1] or is_field_of_param(x[2][0], 'self', 'storage'))]
+        if not emp or (emp[-1] is True) != bool(rem):
+            return False, 'an emptied list is not dropped (or a non-empty one is)'
+    return (n_iter >= 2), ('' if n_iter >= 2 else 'no iteration found')
 
 
 def rule_expiry(ctx, res):
@@ -274,6 +416,11 @@ def rule_expiry(ctx, res):
     rs = Sym(rb)
     rs.run()
     res.paths += len(rs.paths)
+    if not any(e[0] == 'call' and e[1] and e[1].endswith('::drain') for p in rs.paths for e in p.effects) \
+            and any(e[0] == 'call' and e[1] and e[1].endswith('::pop_front') for p in rs.paths for e in p.effects):
+        okb, whyb = _expiry_head_loop(ctx, res, rs)
+        res.check(okb, 'TABLE', rb.path, 'expiry drains exactly the longest expired prefix of the queue and removes each drained pair from its list (dropping emptied lists)', site=rb.span, detail=whyb)
+        return
     okd = True
     nloop = 0
     for p in rs.paths:
@@ -365,7 +512,8 @@ def rule_expiry(ctx, res):
 def rule_who(ctx, res):
     """methods applied to the queue / map / lists; no writer outside storage.rs"""
     allowed = {
-        'expires': {'push', 'retain', 'drain', 'len', 'deref', 'iter', 'into_iter', 'next', 'is_empty', 'first', 'get', 'as_slice', 'position'},   # writers: push / retain / drain only
+        'expires': {'push', 'retain', 'drain', 'len', 'deref', 'iter', 'into_iter', 'next', 'is_empty', 'first', 'get', 'as_slice', 'position',
+                    'push_back', 'pop_front', 'front', 'back'},   # writers: push / retain / drain only
         'storage': {'get', 'get_mut', 'entry', 'remove', 'contains_key', 'len', 'is_empty'},
     }
     seen = {'expires': set(), 'storage': set()}
